@@ -110,6 +110,16 @@ READERS = [
     lambda p: p.call("i", "SDreaddata", V("s6"), i32s(5), None, i32s(1), Out(2)),
     lambda p: p.call("i", "SDreaddata", V("s2"), i32s(6), None, i32s(1), Out(4)),
     lambda p: p.call("i", "SDreaddata", V("s2"), i32s(2), None, i32s(5), Out(20)),
+    # raw-location inquiries (they open the file a second time internally)
+    lambda p: p.call("i", "SDgetanndatainfo", V("s0"), 0, 4, Out(16), Out(16)),
+    lambda p: p.call("i", "SDgetanndatainfo", V("s2"), 1, 4, Out(16), Out(16)),
+    lambda p: p.call("i", "SDgetanndatainfo", V("sd"), 2, 4, Out(16), Out(16)),
+    lambda p: p.call("i", "SDgetdatainfo", V("s0"), None, 0, 4, Out(16), Out(16)),
+    lambda p: p.call("i", "SDgetattdatainfo", V("s0"), 0, Out(4), Out(4)),
+    lambda p: p.call("i", "SDgetoldattdatainfo", V("d0"), V("s0"), "long_name", Out(4), Out(4)),
+    lambda p: p.call("i", "GRgetdatainfo", V("ri"), 0, 4, Out(16), Out(16)),
+    lambda p: p.call("i", "VSgetdatainfo", V("vs"), 0, 4, Out(16), Out(16)),
+    lambda p: p.call("i", "ANgetdatainfo", V("ann"), Out(4), Out(4)),
 ]
 
 
